@@ -270,6 +270,14 @@ type KeyMaps struct {
 	C map[CK]int
 }
 
+// WU wraps a type with Equal/Compare methods in a comparable struct; WrapUser holds it next to a slice.
+type WU struct{ V UEq }
+
+type WrapUser struct {
+	X WU
+	L []int
+}
+
 // Unit has nothing to compare, OnlyPad only padding.
 type Unit struct{}
 
@@ -517,6 +525,7 @@ func structTys() []*Ty {
 		mk("ext.Blank", false, "ext"),
 		mk("ext.Sess", false, "ext", "unexported", "extpriv"),
 		mk("Vers", false, "ext", "ext2", "user"),
+		mk("WrapUser", false, "user"),
 		mk("SameName", false, "ext", "unexported", "extpriv", "samename"),
 		mk("KeyMaps", false),
 		mk("Units", false),
